@@ -102,21 +102,6 @@ func init() {
 			it.covers[l]++
 			return nil
 		},
-		P + "vSetenv": func(it *Interp, a []Value) Value {
-			k, _ := a[0].(*StrV).isConc()
-			it.penv[k] = a[1].(*StrV)
-			return nil
-		},
-		"os.Getenv": func(it *Interp, a []Value) Value {
-			k, ok := a[0].(*StrV).isConc()
-			if !ok {
-				it.unsup("Getenv symbolic key")
-			}
-			if v, ok := it.penv[k]; ok {
-				return v
-			}
-			return conc("")
-		},
 		"strings.Split": func(it *Interp, a []Value) Value {
 			sep, ok := a[1].(*StrV).isConc()
 			if !ok {
